@@ -301,6 +301,16 @@ func ppValue(v slip.Object) (pv slip.Object) {
 		if 0 < len(tv) {
 			pv = slip.List{slip.Symbol("quote"), tv}
 		}
+	case *slip.Vector:
+		// A #(...) literal reads as an adjustable vector of t without a fill pointer.
+		if 0 <= tv.FillPtr || !tv.Adjustable() || tv.ElementType() != slip.TrueSymbol {
+			pv = tv.LoadForm()
+		}
+	case *slip.Array:
+		// A #nA(...) literal reads as an array of t that is not adjustable.
+		if tv.Adjustable() || tv.ElementType() != slip.TrueSymbol {
+			pv = tv.LoadForm()
+		}
 	case *slip.Package:
 		pv = slip.List{
 			slip.Symbol("find-package"),
